@@ -794,6 +794,9 @@ def _fold_constants(stmts: List[ast.stmt]) -> List[ast.stmt]:
             if len(node.ops) == 1 and isinstance(node.ops[0], (ast.Is, ast.IsNot)) and isinstance(node.left, ast.Name) and isinstance(node.comparators[0], ast.Name):
                 a, b = node.left.id, node.comparators[0].id
                 same = None
+                BUILTIN_TYPES = ("str", "bool", "int", "float", "list", "dict", "tuple", "bytes", "set", "frozenset", "bytearray", "complex", "type", "object")
+                if a in BUILTIN_TYPES and b in BUILTIN_TYPES and a not in F.alias and b not in F.alias and a not in F.fresh and b not in F.fresh:
+                    same = a == b           # two builtin classes named directly (rows of a type table put in place)
                 if F.alias.get(a) == b or F.alias.get(b) == a:
                     same = True
                 elif (a in F.fresh) != (b in F.fresh) or (a in F.fresh and b in F.fresh and a != b):
